@@ -2,7 +2,7 @@
 ID = 'C11'
 CLAIM = ('xoptional_vector<int>, xoptional_array<int,3>, xcomplex_vector<double>, xcomplex_array<double,3> with the real std::vector and xdynamic_bitset code: every constructor, up to two resizes (all three forms), one write through a '
          'symbolic access path (operator[], at, iterator, reverse iterator, front/back, element proxies, underlying containers), then every element read through operator[], at, const iterator, reverse iterator and the '
-         'underlying storages: equal lengths, pairwise coherence, defaults missing/zero, at() throws exactly for i >= size(), == / !=')
+         'underlying storages: equal lengths, pairwise coherence, defaults missing/zero, at() throws exactly for i >= size(), == / !=; growing resize of xoptional_vector<T> with a T whose constructors may throw (symbolic fault schedule): storages stay in lockstep')
 BOUNDS = {'quick': 'sizes (after construction, after resize) in {0,1,2,3} x {0,1,2,3} minus a few, optionally a second resize; values in (-100000, 100000) resp. (-1000, 1000); one write',
           'thorough': 'all 16 size pairs and a second resize to every size 0..3'}
 NOT_COVERED = ['sizes above 3 (more than one 64-bit flag block is covered by C03)', 'iterators of the array variants: xoptional_iterator/xcomplex_iterator do not compile over std::array (pointer iterators have no value_type member)',
@@ -21,7 +21,7 @@ def pairs(tier):
 
 def units(tier):
     return [Unit('seq', 'wrappers.cpp', ['harness.c'], inert=INERT, rt=('verif_rt.c', 'libstdcxx_models.c'),
-                 tv=[('h_optvec', ['N0=2', 'N1=3', 'N2=3']), ('h_cpxvec', ['N0=3', 'N1=1', 'N2=2']), ('h_optarr', []), ('h_cpxarr', []), ('h_at', ['N0=2']), ('h_eq', ['N0=2'])], tv_iters=5000)]
+                 tv=[('h_optvec', ['N0=2', 'N1=3', 'N2=3']), ('h_cpxvec', ['N0=3', 'N1=1', 'N2=2']), ('h_optarr', []), ('h_cpxarr', []), ('h_at', ['N0=2']), ('h_eq', ['N0=2']), ('h_optvec_throw', ['N0=1', 'N1=3'])], tv_iters=5000)]
 
 
 def obligations(tier):
@@ -38,4 +38,6 @@ def obligations(tier):
     for n in (0, 1, 3):
         ob = Ob('at/size%d' % n, 'seq', 'h_at', defines=['N0=%d' % n] + ALLOC, unwind=8, mem_unwind=40, bound='size %d, any 64-bit index' % n, min_witnesses=2, timeout=900); ob.harness_unwind = 50; obs.append(ob)
         ob = Ob('eq/size%d' % n, 'seq', 'h_eq', defines=['N0=%d' % n] + ALLOC, unwind=8, mem_unwind=40, bound='size %d' % n, timeout=900); ob.harness_unwind = 50; obs.append(ob)
+    for (a, b) in ((1, 3), (0, 2), (2, 3)):
+        ob = Ob('throwing_element/%d_%d' % (a, b), 'seq', 'h_optvec_throw', defines=['N0=%d' % a, 'N1=%d' % b] + ALLOC, unwind=8, mem_unwind=40, bound='sizes %d -> %d, every fault schedule of element constructors' % (a, b), timeout=900); ob.harness_unwind = 50; obs.append(ob)
     return obs
